@@ -331,6 +331,7 @@ class Ctx:
     def case(self, case, nontrivial=True):
         """Register one evaluated case (JSON-able dict)."""
         self.evaluations += 1
+        self.last_case = case
         if nontrivial:
             h = hashlib.sha1(json.dumps(case, sort_keys=True, default=jsonable).encode()).hexdigest()
             self.nontrivial.add(h)
